@@ -148,6 +148,10 @@ func (srv *Srv) flush(req *SrvReq) {
 	_ = PackRflush(req.Rc)
 	conn.Lock()
 	r := conn.reqs[tag]
+	if r == req {
+		// a Tflush that names its own tag flushes nothing: answer it at once
+		r = nil
+	}
 	if r != nil {
 		req.flushreq = r.flushreq
 		r.flushreq = req
